@@ -74,7 +74,7 @@ func c02SSO(r *core.Run, idx int, rng *rand.Rand) {
 	c.SPD.ACS = nil
 	n := 1 + rng.Intn(5)
 	for k := 0; k < n; k++ {
-		b := []string{spsim.BindPost, spsim.BindPost, spsim.BindRedirect, spsim.BindRedirect, spsim.BindArtifact}[rng.Intn(5)]
+		b := []string{spsim.BindPost, spsim.BindPost, spsim.BindRedirect, spsim.BindRedirect, spsim.BindArtifact, otherSAMLBindings[0], otherSAMLBindings[rng.Intn(len(otherSAMLBindings))]}[rng.Intn(7)]
 		c.SPD.ACS = append(c.SPD.ACS, spsim.ACS{Binding: b, Location: hostileEndpoint(rng, "spa.example", k, false),
 			Index: []string{"0", "1", "2", "7", "65535"}[rng.Intn(5)], IsDefault: []string{"", "", "true", "false", "1", "0"}[rng.Intn(6)]})
 	}
@@ -92,7 +92,7 @@ func c02SSO(r *core.Run, idx int, rng *rand.Rand) {
 		c.Req.ACSIndex = []string{"1", "99", "-1", "65535"}[rng.Intn(4)]
 		c.Req.ACSURL = evilURL(rng)
 	case 3:
-		c.Req.ProtocolBinding = []string{spsim.BindPost, spsim.BindRedirect, spsim.BindArtifact, "x"}[rng.Intn(4)]
+		c.Req.ProtocolBinding = []string{spsim.BindPost, spsim.BindRedirect, spsim.BindArtifact, "x", otherSAMLBindings[0]}[rng.Intn(5)]
 		c.Req.ACSURL = evilURL(rng)
 	case 4:
 		// near misses of a registered URL: "the same endpoint" for a lenient comparison, another origin / target for a browser
